@@ -21,6 +21,28 @@ pub fn dispatch(k: &str, t: &[&str]) -> Option<String> {
                 Some((r, ids)) => format!("some {} {} {}", r.start, r.end, fmt_vec(&ids)),
             })
         }
+        "table_batch" => {
+            // id0 off0 [n...]: successive frozen buffers of n rows (one i64 column), each turned into a partition by Table::batch
+            use crate::ingest::input_column::InputColumn;
+            let lru = Lru::default();
+            let table = Table::new("t", lru, Some(HashSet::new()));
+            table.next_partition_id.store(num(t[0]), std::sync::atomic::Ordering::SeqCst);
+            table.next_partition_offset.store(num(t[1]), std::sync::atomic::Ordering::SeqCst);
+            let mut res = vec![];
+            for n in vec_of::<usize>(t[2]) {
+                if n > 0 {
+                    let mut cols = HashMap::new();
+                    cols.insert("a".to_string(), InputColumn::Int((0..n as i64).collect()));
+                    table.ingest_homogeneous(cols);
+                }
+                table.freeze_buffer();
+                res.push(match table.batch() { None => "none".to_string(), Some(p) => format!("{}:{}:{}", p.id, p.range().start, p.range().end) });
+            }
+            let mut keys: Vec<u64> = table.partitions.read().unwrap().keys().cloned().collect();
+            keys.sort();
+            Some(format!("{} {} {} {}", res.join(";"), table.next_partition_offset.load(std::sync::atomic::Ordering::SeqCst),
+                         table.next_partition_id.load(std::sync::atomic::Ordering::SeqCst), fmt_vec(&keys)))
+        }
         _ => None,
     }
 }
